@@ -155,6 +155,11 @@ func Alphabet(corner bool) []Sym {
 	jp("json", "copy-m-n-to-c", `[{"op":"copy","from":"/m/n","path":"/c"}]`)
 	jp("json", "add-escaped", `[{"op":"add","path":"/x~1y~0z","value":"esc"}]`)
 	jp("json", "two-ops", `[{"op":"add","path":"/t","value":{}},{"op":"add","path":"/t/u","value":1}]`)
+	// a later operation reads what an earlier operation of the same list wrote (RFC 6902: each operation applies to the result of the one before)
+	jp("json", "replace-then-copy", `[{"op":"add","path":"/m","value":{"n":7}},{"op":"replace","path":"/m/n","value":8},{"op":"copy","from":"/m/n","path":"/c3"}]`)
+	jp("json", "add-then-move", `[{"op":"add","path":"/fresh","value":{"k":1}},{"op":"move","from":"/fresh","path":"/moved"}]`)
+	jp("json", "insert-then-copy-index", `[{"op":"add","path":"/a2","value":["x","y"]},{"op":"add","path":"/a2/0","value":"z"},{"op":"copy","from":"/a2/0","path":"/first"}]`)
+	jp("json", "remove-then-copy-fails", `[{"op":"add","path":"/gone","value":1},{"op":"remove","path":"/gone"},{"op":"copy","from":"/gone","path":"/c4"}]`)
 	jp("json", "fails-second", `[{"op":"add","path":"/t2","value":1},{"op":"remove","path":"/nonexistent"}]`)
 	// a list whose second operation makes the RFC 6902 library panic (negative index) after the first one has been applied
 	jp("json", "fails-second-by-library-panic", `[{"op":"add","path":"/pp","value":[1]},{"op":"replace","path":"/pp/-1","value":2}]`)
